@@ -499,6 +499,33 @@ def _n10(ctx, fm):
     ctx.check(n + len(flips) >= 1, R, fm, fm.node, "no sign flip for 'max' columns found", f"sign flips found: {n + len(flips)}", nontrivial=False)
 
 
+def _n11(ctx):
+    R = "C11-N11"
+    ctx.doc(R, "group ids cover every 'diff' column: each factorisation loop of _encode_groups ranges over the whole array it factorises (`X.shape[1]` for the columns of X, or the diff-column list itself)")
+    eg = ctx.func(FP, "_encode_groups", R)
+    n = 0
+    for lp in [s_ for s_ in eg.stmts() if isinstance(s_, ast.For)]:
+        facts = [c for c in ast.walk(lp) if isinstance(c, ast.Call) and call_name(c) == "factorize"]
+        if not facts:
+            continue
+        n += 1
+        a = facts[0].args[0]
+        ok = False
+        why = ""
+        if isinstance(lp.iter, ast.Call) and call_name(lp.iter) == "range" and len(lp.iter.args) == 1 and isinstance(a, ast.Subscript):
+            arr = norm(a.value)
+            ok = norm(lp.iter.args[0]) == f"{arr}.shape[1]"
+            why = f"the loop visits range({norm(lp.iter.args[0])}) columns of `{arr}`, not {arr}.shape[1]"
+        elif isinstance(lp.iter, ast.Name) and lp.iter.id == eg.params()[1]:
+            ok = True
+        else:
+            why = f"loop over `{norm(lp.iter)}`"
+        ctx.check(ok, R, eg, lp, f"{why}: a 'diff' column (e.g. the padded last one of an odd number of float32 columns) is left out of the group id, so rows that differ only there compete and non-dominated rows are dropped",
+                  "every diff column enters the group id")
+    ctx.require(n >= 2, R, f"factorisation loops in _encode_groups: {n}")
+    ctx.floor(R, 2)
+
+
 def check(ctx):
     core = ctx.func(FP, "_sfs_bnl_core", "C11")
     fm = ctx.func(FP, "fast_pareto_mask", "C11")
@@ -512,12 +539,14 @@ def check(ctx):
     _n8(ctx, fm)
     _n9(ctx, core)
     _n10(ctx, fm)
+    _n11(ctx)
     decs = " ".join(core.decorators())
     if "fastmath=True" in decs:
         ctx.observe("C11-N7 (not armed): _sfs_bnl_core is compiled with fastmath=True (LLVM ninf/nnan assumptions) although its contract includes +inf; no failing input demonstrated")
 
 
 VARIANTS = [
+    {"kind": "F", "name": "odd-diff-column-left-out", "rule": "C11-N11", "edits": [(FP, "        for j in range(packed.shape[1]):", "        for j in range(n_diff // 2):")]},
     {"kind": "F", "name": "sum-key-skips-last-column", "rule": "C11-N9", "edits": [(FP, "            s = 0.0\n            for kk in range(dv):\n                s += local[i, kk]", "            s = 0.0\n            for kk in range(dv - 1):\n                s += local[i, kk]")]},
     {"kind": "F", "name": "dominance-test-skips-first-column", "rule": "C11-N9", "edits": [(FP, "                        for kk in range(dv):\n                            wk = window[w, kk]", "                        for kk in range(1, dv):\n                            wk = window[w, kk]")]},
     {"kind": "F", "name": "reintroduce-finite-best_c1", "rule": "C11-N1", "edits": [
